@@ -497,6 +497,8 @@ class Analyzer:
                 return self._walk(taken[0], st, trail, visits, ret_assign)
             if isinstance(known, tuple) and known[0] == "calldef":
                 role = self.role_of_origin(M.Origin("call", term=self.B.term(known[1]), bb=known[1], proj=[], steps=[]))
+            elif isinstance(known, tuple) and known[0] == "def":
+                role = self.role_of_origin(M.Origin("op", rv=known[2], bb=known[1], proj=[], steps=[]))   # the comparison made on this path
             else:
                 role = self.role_of_operand(d)
             for val, tgt in arms:
